@@ -334,7 +334,7 @@ static void pr_args(struct uftrace_fstack_args *args)
 			strncpy(buf, ptr + 2, size);
 			buf[size] = '\0';
 
-			if (!memcmp(buf, &null_str, 4))
+			if (size == 4 && !memcmp(buf, &null_str, 4))
 				strcpy(buf, "NULL");
 
 			if (spec->fmt == ARG_FMT_STD_STRING)
@@ -440,7 +440,7 @@ static void pr_retval(struct uftrace_fstack_args *args)
 			strncpy(buf, ptr + 2, size);
 			buf[size] = '\0';
 
-			if (!memcmp(buf, &null_str, 4))
+			if (size == 4 && !memcmp(buf, &null_str, 4))
 				strcpy(buf, "NULL");
 
 			if (spec->fmt == ARG_FMT_STD_STRING)
